@@ -966,3 +966,139 @@ Definition run_sched (c : cfg) (i : input) (perm : list Z) (r : Z) (rev : bool) 
                vz_list2 (map (stored_frame false st) (zrange (zlen (s_meta st)))) ]
       end
   end.
+
+(* ================================================================== *)
+(* tiled sources: the mask handed over as ONE total pixel matrix        *)
+(* (Segmentation(..., tile_pixel_array=True), spatial.py)               *)
+(* ================================================================== *)
+(* A total pixel matrix of R rows x C columns is the row-major list of its
+   R*C pixels (a pixel of a 4-D array is its list of segment channels).  In a
+   cfg of a tiled case rows/cols are the TILE size of the segmentation and
+   srows/scols the total pixel matrix size of the SOURCE image. *)
+
+(* spatial.py compute_tile_positions_per_frame: tiles per direction *)
+Definition n_tiles_along (extent tile : Z) : Z := (extent - 1) / tile + 1.
+Definition n_tiles (R C th tw : Z) : Z := n_tiles_along R th * n_tiles_along C tw.
+
+(* ... and the (RowPositionInTotalImagePixelMatrix, ColumnPosition...) of each
+   tile, 1-based, tile rows outermost (meshgrid indexing 'xy', flattened) *)
+Definition tile_offsets (R C th tw : Z) : list (Z * Z) :=
+  flat_map (fun r => map (fun q => (r * th + 1, q * tw + 1)) (zrange (n_tiles_along C tw)))
+           (zrange (n_tiles_along R th)).
+
+(* spatial.py get_tile_array(pixel_array, row_offset, column_offset, tile_rows,
+   tile_columns, pad=True): the slice [row_offset-1 : row_end, column_offset-1 :
+   column_end] clipped to the matrix, then np.pad with ((0, pad_rows),
+   (0, pad_columns)): pad_columns zero pixels AFTER every row, pad_rows zero rows
+   AFTER the last one.  [z] is the zero pixel. *)
+Definition get_tile_array {A} (z : A) (R C : Z) (m : list A) (row_offset column_offset th tw : Z)
+  : res (list A) :=
+  if (row_offset <? 1) || (R <? row_offset) then Err "ValueError" else
+  if (column_offset <? 1) || (C <? column_offset) then Err "ValueError" else
+  let ro := row_offset - 1 in
+  let co := column_offset - 1 in
+  let row_end := if R <? ro + th then R else ro + th in
+  let pad_rows := if R <? ro + th then ro + th - R else 0 in
+  let col_end := if C <? co + tw then C else co + tw in
+  let pad_cols := if C <? co + tw then co + tw - C else 0 in
+  Ok (flat_map (fun k => slice ((ro + k) * C + co) ((ro + k) * C + col_end) m
+                         ++ repeat z (Z.to_nat pad_cols))
+               (zrange (row_end - ro))
+      ++ repeat z (Z.to_nat (pad_rows * tw))).
+
+Definition tile_planes {A} (z : A) (R C th tw : Z) (m : list A) : res (list (list A)) :=
+  map_res (fun rc => get_tile_array z R C m (fst rc) (snd rc) th tw) (tile_offsets R C th tw).
+
+(* the frames the constructor cuts out of pixel_array[0] *)
+Definition tile_input (c : cfg) (R C : Z) (i : input) : res input :=
+  match i with
+  | Label ps => bind (tile_planes 0 R C (rows c) (cols c) (nthz 0 ps [])) (fun t => Ok (Label t))
+  | Stack ps => bind (tile_planes (zeros (zlen (segs c))) R C (rows c) (cols c) (nthz 0 ps []))
+                     (fun t => Ok (Stack t))
+  end.
+
+(* the configuration of the frame loop: one "source plane" per tile *)
+Definition tiled_cfg (c : cfg) (R C : Z) : cfg :=
+  Cfg (ty c) (dt c) (den c) (maxfrac c) (omit c) (segs c) (rows c) (cols c) (rows c) (cols c)
+      (n_tiles R C (rows c) (cols c)) (native c).
+
+(* Segmentation.__init__ with tile_pixel_array=True (geometry of the source
+   kept): pixel_array.shape[0] must be 1; the checks and casts act pixel-wise on
+   the matrix; its shape must be the total pixel matrix of the source; the plane
+   sort index is arange (tiles in the order of tile_offsets); TILED_FULL
+   ([full]) cannot be combined with omit_empty_frames - unless the mask is
+   entirely empty, in which case omission is switched off before *)
+Definition omit_on (c : cfg) (i : input) : bool :=
+  match check_and_cast c i with Ok a => snd (included c a) | Err _ => false end.
+
+Definition construct_tiled (c : cfg) (R C : Z) (full : bool) (i : input) : res stored :=
+  if negb (n_planes i =? 1) then Err "ValueError" else
+  bind (tile_input c R C i) (fun ti =>
+  let c' := tiled_cfg c R C in
+  bind (construct c' ti (zrange (nsrc c'))) (fun st =>
+  if negb ((R =? srows c) && (C =? scols c)) then Err "ValueError" else
+  if full && omit_on c' ti then Err "ValueError" else Ok st)).
+
+(* ---- the specification, straight from the matrix --------------------- *)
+(* the matrix seen as a one-plane input of R x C pixels *)
+Definition tpm_cfg (c : cfg) (R C : Z) : cfg :=
+  Cfg (ty c) (dt c) (den c) (maxfrac c) (omit c) (segs c) R C R C 1 (native c).
+
+(* tile t (row-major over the tiles), in-tile pixel p, k-th segment: the stored
+   value of the matrix pixel under it, zero beyond the bottom / right edge *)
+Definition expected_tile_pixel (c : cfg) (R C : Z) (i : input) (t p k : Z) : Z :=
+  let ntc := n_tiles_along C (cols c) in
+  let r := (t / ntc) * rows c + p / cols c in
+  let q := (t mod ntc) * cols c + p mod cols c in
+  if (0 <=? t) && (t <? n_tiles R C (rows c) (cols c)) && (r <? R) && (q <? C)
+  then expected_pixel (tpm_cfg c R C) i 0 (r * C + q) k else 0.
+
+Definition expected_tile_plane (c : cfg) (R C : Z) (i : input) (t : Z) : list (list Z) :=
+  map (fun p => map (fun k => expected_tile_pixel c R C i t p k) (zrange (zlen (segs c))))
+      (zrange (rows c * cols c)).
+
+(* what a request list of SOURCE FRAME NUMBERS (1-based) must read back as *)
+Definition expected_tiled_req (c : cfg) (R C : Z) (i : input) (req : list Z) : list (list (list Z)) :=
+  map (fun f => expected_tile_plane c R C i (f - 1)) req.
+
+(* the matrices of the documented domain *)
+Definition valid_tiled (c : cfg) (R C : Z) (i : input) : bool :=
+  (1 <=? rows c) && (1 <=? cols c) && (1 <=? R) && (1 <=? C) && valid (tpm_cfg c R C) i.
+
+(* numpy arrays of shape (1, R, C[, S]) - no condition on the content *)
+Definition well_formed_tiled (c : cfg) (R C : Z) (i : input) : bool :=
+  (1 <=? rows c) && (1 <=? cols c) && (1 <=? R) && (1 <=? C) && (n_planes i =? 1) &&
+  well_formed (tpm_cfg c R C) i.
+
+Definition tiled_spec_holds (c : cfg) (R C : Z) (full : bool) (i : input) : bool :=
+  match construct_tiled c R C full i with
+  | Err _ => false
+  | Ok st =>
+      let req := one_to (n_tiles R C (rows c) (cols c)) in
+      forallb (fun lz : bool =>
+        eqb_res eqb3 (read_by_frame lz st req true) (Ok (expected_tiled_req c R C i req)))
+        [false; true]
+  end.
+
+(* the whole observation of one tiled case:
+   [NumberOfFrames; per-frame (segment, tile index); PixelData bytes (native);
+    read by source frame of the in-memory / eagerly read / lazily read object
+    ([refs] = the stored frames refer to source frames; otherwise indexing by
+    source frame is refused); other discrepancies (none); the specification
+    holds; the matrix is valid; the decoded stored frames] *)
+Definition run_tiled (c : cfg) (R C : Z) (full refs : bool) (i : input) (req : list Z)
+  (assert_missing : bool) : val :=
+  match construct_tiled c R C full i with
+  | Err k => VErr k
+  | Ok st =>
+      let rd := fun lz => if refs then vres vz3 (read_by_frame lz st req assert_missing)
+                          else VErr "RuntimeError" in
+      VL [ VZ (zlen (s_meta st));
+           VL (map (fun m => vz_list [fst m; snd m]) (s_meta st));
+           vz_list (s_bytes st);
+           rd false; rd false; rd true;
+           VL [];
+           VB (tiled_spec_holds c R C full i);
+           VB (valid_tiled c R C i);
+           vz_list2 (map (stored_frame false st) (zrange (zlen (s_meta st)))) ]
+  end.
